@@ -281,10 +281,11 @@ static void part_tsan(vf::Run& R)
         std::map<size_t, Tallies> ser_cache;  // per number of events (ref_hash[e] stays valid)
         for (auto const& cs : cases)
         {
-            // quick: the three newer variants run the T=3 assignments that keep all three
+            // quick: the four newer variants run the T=3 assignments that keep all three
             // streams busy only (thorough: everything)
             if (!thorough && cs.T == 3 && (v.checker || v.along != AlongStep::linear_fluct
-                                           || v.order == TrackOrder::reindex_both_action)
+                                           || v.order == TrackOrder::reindex_both_action
+                                           || (v.order == TrackOrder::init_charge && !v.calo))
                 && std::set<unsigned>(cs.assign.begin(), cs.assign.end()).size() < 3)
                 continue;
             if (!R.mine(outer++))
